@@ -127,7 +127,7 @@ Lemma vac_insert_lawful k v (w : world) :
      (fun i w' => WF (self w') /\ cap (self w') = cap (self w) /\ log w' = log w /\
                   elems (self w') = elems (self w) ++ [(k, v)] /\ i = length (elems (self w)) /\
                   len (self w) < cap (self w))
-     (fun w' => self w' = self w /\ logged w w' (ev_drops (idK E k ++ idV E v)) /\
+     (fun w' => self w' = self w /\ logged w w' (ev_drops (idV E v ++ idK E k)) /\
                 len (self w) = cap (self w)) w.
 Proof.
   intros Hw Hf. unfold vac_insert. apply wp_bind.
@@ -156,7 +156,7 @@ Lemma or_insert_lawful k v (w : world) :
                   | None => i = length (elems (self w)) /\
                             elems (self w') = elems (self w) ++ [(k, v)] /\ log w' = log w
                   end)
-     (fun w' => self w' = self w /\ logged w w' (ev_drops (idK E k ++ idV E v)) /\
+     (fun w' => self w' = self w /\ logged w w' (ev_drops (idV E v ++ idK E k)) /\
                 find_idx ck (ck k) (elems (self w)) = None /\
                 len (self w) = cap (self w)) w.
 Proof.
@@ -206,7 +206,7 @@ Lemma or_insert_with_lawful k (f : T -> option V * T) (w : world) :
                   end)
      (fun w' => self w' = self w /\
                 (exists v s s', f s = (Some v, s') /\
-                   logged w w' ([EvCall 2] ++ ev_drops (idK E k ++ idV E v))) /\
+                   logged w w' ([EvCall 2] ++ ev_drops (idV E v ++ idK E k))) /\
                 find_idx ck (ck k) (elems (self w)) = None /\
                 len (self w) = cap (self w)) w.
 Proof.
@@ -244,7 +244,7 @@ Lemma or_insert_with_key_lawful k (f : K -> T -> option V * T) (w : world) :
                   end)
      (fun w' => self w' = self w /\
                 (exists v s s', f k s = (Some v, s') /\
-                   logged w w' ([EvCall 2] ++ ev_drops (idK E k ++ idV E v))) /\
+                   logged w w' ([EvCall 2] ++ ev_drops (idV E v ++ idK E k))) /\
                 find_idx ck (ck k) (elems (self w)) = None /\
                 len (self w) = cap (self w)) w.
 Proof.
